@@ -30,6 +30,27 @@ func deepText(kind string, depth int) (string, map[string]interface{}) {
 		return "{ user(id: " + strings.Repeat("[", depth) + strings.Repeat("]", depth) + ") { id } }", nil
 	case "object-literal":
 		return "{ user(id: " + strings.Repeat("{a: ", depth) + "1" + strings.Repeat("}", depth) + ") { id } }", nil
+	case "after-comment-lf", "after-comment-cr", "after-comment-crlf": // a comment line in front of the nesting, ended in each of the three ways
+		end := map[string]string{"after-comment-lf": "\n", "after-comment-cr": "\r", "after-comment-crlf": "\r\n"}[kind]
+		return "# note {{{ " + end + strings.Repeat("{a", depth) + strings.Repeat("}", depth), nil
+	case "after-string": // brackets inside a string literal in front of the nesting
+		return `{ user(id: "}}}\"}}}") { id } ` + strings.Repeat("a{", depth) + "a" + strings.Repeat("}", depth) + " }", nil
+	case "fragment-chain": // every fragment nests 4000 levels and ends in a spread of the next one
+		per := 4000
+		n := depth / per
+		var b strings.Builder
+		b.WriteString("{ users { ...F0 } }")
+		for i := 0; i < n; i++ {
+			b.WriteString(fmt.Sprintf(" fragment F%d on User ", i))
+			b.WriteString(strings.Repeat("{ friend ", per))
+			if i+1 < n {
+				b.WriteString(fmt.Sprintf("{ ...F%d }", i+1))
+			} else {
+				b.WriteString("{ id }")
+			}
+			b.WriteString(strings.Repeat(" }", per))
+		}
+		return b.String(), nil
 	case "inline-fragments":
 		return "{ users " + strings.Repeat("{ ... on User ", depth) + "{ id }" + strings.Repeat(" }", depth) + " }", nil
 	}
@@ -60,7 +81,7 @@ func runDeep(rp *explore.Report, tier string) {
 		depths = append(depths, 1000000)
 	}
 	var k int64
-	for _, kind := range []string{"selections", "unknown-selections", "list-literal", "object-literal", "inline-fragments"} {
+	for _, kind := range []string{"selections", "unknown-selections", "list-literal", "object-literal", "inline-fragments", "after-comment-lf", "after-comment-cr", "after-comment-crlf", "after-string", "fragment-chain"} {
 		for _, depth := range depths {
 			k++
 			if !rp.Mine(k) {
@@ -74,7 +95,11 @@ func runDeep(rp *explore.Report, tier string) {
 			}
 			first := strings.SplitN(strings.TrimSpace(string(out)), "\n", 3)
 			msg := strings.Join(first[:min(len(first), 2)], " | ")
-			rp.AddViolation(&explore.Violation{Item: fmt.Sprintf("%s nested %d levels deep", kind, depth), Stable: true, Signature: "c15/process-dies/deep-" + kind,
+			sig := "c15/process-dies/deep-" + kind
+			if kind == "fragment-chain" {
+				sig = "c15/known/deep-nesting-through-a-chain-of-fragments"
+			}
+			rp.AddViolation(&explore.Violation{Item: fmt.Sprintf("%s nested %d levels deep", kind, depth), Stable: true, Signature: sig,
 				Failures: []explore.Failure{{Clause: "never-panics", Msg: fmt.Sprintf("parsing and validating the text took the process down (%v): %.300s", err, msg)}}})
 		}
 	}
@@ -83,5 +108,5 @@ func runDeep(rp *explore.Report, tier string) {
 
 func init() {
 	reg.Register(&reg.Harness{Property: "C15", Name: "c15/deep-nesting", Level: "exploration", Run: runDeep,
-		Rule: "query text nested 1000 and 200000 (thorough: 1000000) levels deep - selection sets over a recursive field, unknown selections, list literals, object literals, inline fragments - parsed and validated in a child process with a 64 MB maximal stack; oracle: the child returns a result or an error (a stack overflow is fatal and cannot be recovered)"})
+		Rule: "query text nested 1000 and 200000 (thorough: 1000000) levels deep - selection sets over a recursive field, unknown selections, list literals, object literals, inline fragments, the nesting placed after a comment line ended by LF / CR / CRLF or after a string holding brackets, and nesting spread over a chain of fragments (the recorded known finding) - parsed and validated in a child process with a 64 MB maximal stack; oracle: the child returns a result or an error (a stack overflow is fatal and cannot be recovered)"})
 }
